@@ -475,25 +475,32 @@ pub fn array_reduce(
         (first, 1)
     };
 
+    // The accumulator returned by one callback is only referenced from here until the next
+    // callback stores it somewhere: keep its guard alive across iterations (and hand it to the
+    // caller), otherwise a collection during the next call frees it.
+    let mut acc_guard = interp.guard_value(&accumulator);
+
     for i in start_index..length {
         if has_array_like_element(&arr, i) {
             let elem = get_array_like_element(&arr, i);
 
             let Guarded {
                 value: acc,
-                guard: _acc_guard,
+                guard: _call_guard,
             } = interp.call_function(
                 callback.clone(),
                 JsValue::Undefined,
                 &[accumulator, elem, JsValue::Number(i as f64), this.clone()],
             )?;
             accumulator = acc;
+            acc_guard = interp.guard_value(&accumulator);
         }
     }
 
-    // Accumulator is a derived value - no guard needed as it's either a primitive
-    // or an object from the array/callback which is already owned
-    Ok(Guarded::unguarded(accumulator))
+    Ok(Guarded {
+        value: accumulator,
+        guard: acc_guard,
+    })
 }
 
 pub fn array_find(
@@ -1578,6 +1585,11 @@ pub fn array_reduce_right(
         (elem, length as i64 - 2)
     };
 
+    // See array_reduce: the accumulator must stay guarded between callbacks
+    let mut acc_guard = interp.guard_value(&accumulator);
+    let _callback_guard = interp.guard_value(&callback);
+    let _arr_guard = interp.guard_value(&this);
+
     for i in (0..=start_index).rev() {
         let elem = arr
             .borrow()
@@ -1597,10 +1609,13 @@ pub fn array_reduce_right(
             ],
         )?;
         accumulator = result;
+        acc_guard = interp.guard_value(&accumulator);
     }
 
-    // Accumulator is a derived value - no guard needed
-    Ok(Guarded::unguarded(accumulator))
+    Ok(Guarded {
+        value: accumulator,
+        guard: acc_guard,
+    })
 }
 
 pub fn array_flat(
